@@ -368,7 +368,7 @@ def execute(plan: dict[str, Any]) -> dict[str, Any]:
         "evals": len(variants),
         "nontrivial": nontrivial,
         "faults_fired": fired,
-        "probes": probes,
+        "probes": {**probes, **sched.probes},
         "sim_steps": sched.global_step,
         "ops": len(variants),
         "switches": sched.switches,
